@@ -179,19 +179,37 @@ func (m *omap) iter(fr *frame) iter {
 			es = append(es, e)
 		}
 	}
-	if fr.i.ex != nil && fr.i.ex.nondetOrder && len(es) > 1 {
-		// iteration order becomes a forked permutation
-		ex := fr.i.ex
-		perm := make([]*oentry, 0, len(es))
-		rest := append([]*oentry{}, es...)
-		for len(rest) > 1 {
-			k := ex.choice(len(rest))
-			perm = append(perm, rest[k])
-			rest = append(rest[:k], rest[k+1:]...)
+	if ex := fr.i.ex; ex != nil && ex.nondetOrder && len(es) > 1 {
+		ord := ex.nondetSeen
+		ex.nondetSeen++
+		if ex.nondetAt < 0 || ex.nondetAt == ord {
+			// the iteration order of this loop becomes a forked permutation
+			if len(es) <= 4 {
+				perm := make([]*oentry, 0, len(es))
+				rest := append([]*oentry{}, es...)
+				for len(rest) > 1 {
+					k := ex.choice(len(rest))
+					perm = append(perm, rest[k])
+					rest = append(rest[:k], rest[k+1:]...)
+				}
+				perm = append(perm, rest[0])
+				es = perm
+			} else {
+				// larger maps: every rotation, and the reversal
+				k := ex.choice(len(es) + 1)
+				n := len(es)
+				perm := make([]*oentry, n)
+				for i := range es {
+					if k == n {
+						perm[i] = es[n-1-i]
+					} else {
+						perm[i] = es[(i+k)%n]
+					}
+				}
+				es = perm
+			}
+			ex.w.res.Bounds["map-iterations-permuted"]++
 		}
-		perm = append(perm, rest[0])
-		es = perm
-		ex.w.res.Bounds["map-iteration-permutations"]++
 	}
 	return &omapIter{es: es}
 }
